@@ -10,6 +10,7 @@ import (
 	"os/exec"
 	"path/filepath"
 	"sort"
+	"strconv"
 	"strings"
 	"testing"
 	"time"
@@ -917,6 +918,157 @@ func TestC19(t *testing.T) {
 			}
 		}
 		gen.Exhaustive("3 config path settings x 3 inline settings x 9 flag settings x 2 config formats, quote under root A", true)
+	})
+
+	// One setting at a time: a quote that verifies (root A given by flag), no network, and exactly ONE policy setting —
+	// a numeric minimum written in one of many spellings, or the config's MR_TD allow-list together with the -mr_td
+	// flag — so that no other fault can hide how that one setting is read.
+	gen.Prop(t, "one-setting-at-a-time", gen.N(300, 8000), func(t *rapid.T) {
+		n++
+		dir := filepath.Join(base, fmt.Sprintf("one%d", n%8))
+		_ = os.RemoveAll(dir)
+		if err := os.MkdirAll(dir, 0o755); err != nil {
+			gen.HarnessError(t, "mkdir: %v", err)
+		}
+		s := gen.NewStream(rapid.Uint64().Draw(t, "content"), "c19one")
+		pA := gen.NewPKI(gen.PKISpec{Seed: "pki-A"})
+		w := gen.NewWorld(pA, s)
+		binary.LittleEndian.PutUint64(w.Q.Xfam[:], gen.XfamFixed1|(s.Uint64()&gen.XfamFixed0))
+		binary.LittleEndian.PutUint64(w.Q.TdAttr[:], s.Uint64()&gen.TdAttrAllowed)
+		w.Q.TeeTcbSvn[1] = 0
+		// header SVNs that leave room on both sides
+		binary.LittleEndian.PutUint16(w.Q.Word10[:], uint16(1+s.Intn(60000)))
+		binary.LittleEndian.PutUint16(w.Q.Word8[:], uint16(1+s.Intn(60000)))
+		w.HonestCollateral()
+		w.Build()
+		wr := func(name string, b []byte) string {
+			p := filepath.Join(dir, name)
+			if err := os.WriteFile(p, b, 0o644); err != nil {
+				gen.HarnessError(t, "write %s: %v", p, err)
+			}
+			return p
+		}
+		c := &c19Case{classes: map[int]string{}, netMode: "unreachable"}
+		c.args = []string{"-inform=bin", "-in=" + wr("quote.dat", w.Raw), "-trusted_roots=" + wr("roots.pem", pA.Root.PEM)}
+		want := 0
+		what := ""
+		if rapid.Bool().Draw(t, "numeric") {
+			qe := rapid.Bool().Draw(t, "qe")
+			name, actual := "minimum_pce_svn", uint64(svnOf(w.Q, false))
+			if qe {
+				name, actual = "minimum_qe_svn", uint64(svnOf(w.Q, true))
+			}
+			type sp struct {
+				text string
+				want int
+			}
+			spell := []sp{{"0", 0}, {fmt.Sprint(actual), 0}, {fmt.Sprintf("0x%x", actual), 0}, {fmt.Sprintf("0X%X", actual), 0}, {fmt.Sprintf("00%d", actual), 0}, {fmt.Sprintf("0b%b", actual), 0}, {fmt.Sprintf("0o%o", actual), 0},
+				{fmt.Sprint(actual - 1), 0}, {fmt.Sprint(actual + 1), 4}, {"65535", 4}, {fmt.Sprintf("0x%x", actual+1), 4},
+				{"65536", 1}, {"0x10000", 1}, {"70000", 1}, {"268435456", 1}, {"4026531843", 1}, {"4294967295", 1}, {"4294967296", 1}, {"0x100000000", 1}, {"8589934592", 1}, {fmt.Sprint(4294967296 + actual), 1}, {fmt.Sprint(uint64(1)<<48 + actual), 1},
+				{"18446744073709551615", 1}, {"18446744073709551616", 1}, {"-1", 1}, {"+5", 1}, {" 5", 1}, {"5 ", 1}, {"1e3", 1}, {"12abc", 1}, {"0x", 1}, {"five", 1}, {"0x1_0", 1}, {"1.0", 1}}
+			v := rapid.SampledFrom(spell).Draw(t, "spelling")
+			if rapid.IntRange(0, 3).Draw(t, "viaConfig") == 0 && v.want != 1 || rapid.IntRange(0, 5).Draw(t, "wideViaConfig") == 0 && v.want == 1 {
+				// the same number in a config file (only numbers a uint32 field can hold)
+				if num, err := strconv.ParseUint(strings.TrimPrefix(strings.ToLower(v.text), "0x"), map[bool]int{true: 16, false: 10}[strings.HasPrefix(strings.ToLower(v.text), "0x")], 32); err == nil && !strings.HasPrefix(v.text, "00") && !strings.HasPrefix(v.text, "0b") && !strings.HasPrefix(v.text, "0o") {
+					cfg := &ccpb.Config{Policy: &ccpb.Policy{HeaderPolicy: &ccpb.HeaderPolicy{}, TdQuoteBodyPolicy: &ccpb.TDQuoteBodyPolicy{}}}
+					if qe {
+						cfg.Policy.HeaderPolicy.MinimumQeSvn = uint32(num)
+					} else {
+						cfg.Policy.HeaderPolicy.MinimumPceSvn = uint32(num)
+					}
+					b, _ := prototext.Marshal(cfg)
+					c.args = append(c.args, "-config="+wr("config.textproto", b))
+					what = fmt.Sprintf("config %s: %d", name, num)
+					want = map[bool]int{true: 1, false: map[bool]int{true: 4, false: 0}[num > actual]}[num > 65535]
+				}
+			}
+			if what == "" {
+				c.args = append(c.args, "-"+name+"="+v.text)
+				what = fmt.Sprintf("-%s=%q (quote has %d)", name, v.text, actual)
+				want = v.want
+			}
+		} else {
+			other := func() []byte { b := append([]byte{}, w.Q.MrTd[:]...); b[s.Intn(48)] ^= byte(1 + s.Intn(255)); return b }
+			listKind := rapid.SampledFrom([]string{"absent", "[actual]", "[other]", "[other,actual]", "[actual,other]", "[other,other]", "[wrong-length]", "nine-others", "nine-with-actual-last"}).Draw(t, "allowList")
+			flagKind := rapid.SampledFrom([]string{"absent", "match", "mismatch"}).Draw(t, "mrTdFlag")
+			cfg := &ccpb.Config{Policy: &ccpb.Policy{HeaderPolicy: &ccpb.HeaderPolicy{}, TdQuoteBodyPolicy: &ccpb.TDQuoteBodyPolicy{}}}
+			inList, malformed := true, false
+			switch listKind {
+			case "[actual]":
+				cfg.Policy.TdQuoteBodyPolicy.AnyMrTd = [][]byte{append([]byte{}, w.Q.MrTd[:]...)}
+			case "[other]":
+				cfg.Policy.TdQuoteBodyPolicy.AnyMrTd, inList = [][]byte{other()}, false
+			case "[other,actual]":
+				cfg.Policy.TdQuoteBodyPolicy.AnyMrTd = [][]byte{other(), append([]byte{}, w.Q.MrTd[:]...)}
+			case "[actual,other]":
+				cfg.Policy.TdQuoteBodyPolicy.AnyMrTd = [][]byte{append([]byte{}, w.Q.MrTd[:]...), other()}
+			case "[other,other]":
+				cfg.Policy.TdQuoteBodyPolicy.AnyMrTd, inList = [][]byte{other(), other()}, false
+			case "[wrong-length]":
+				cfg.Policy.TdQuoteBodyPolicy.AnyMrTd, malformed = [][]byte{w.Q.MrTd[:47]}, true
+			case "nine-others", "nine-with-actual-last":
+				for i := 0; i < 9; i++ {
+					cfg.Policy.TdQuoteBodyPolicy.AnyMrTd = append(cfg.Policy.TdQuoteBodyPolicy.AnyMrTd, other())
+				}
+				inList = false
+				if listKind == "nine-with-actual-last" {
+					cfg.Policy.TdQuoteBodyPolicy.AnyMrTd[8], inList = append([]byte{}, w.Q.MrTd[:]...), true
+				}
+			}
+			if listKind != "absent" {
+				if rapid.Bool().Draw(t, "text") {
+					b, _ := prototext.Marshal(cfg)
+					c.args = append(c.args, "-config="+wr("config.textproto", b))
+				} else {
+					b, _ := proto.Marshal(cfg)
+					c.args = append(c.args, "-config="+wr("config.pb", b))
+				}
+			}
+			flagOK := true
+			switch flagKind {
+			case "match":
+				c.args = append(c.args, "-mr_td="+hex.EncodeToString(w.Q.MrTd[:]))
+			case "mismatch":
+				c.args, flagOK = append(c.args, "-mr_td="+hex.EncodeToString(other())), false
+			}
+			if rapid.IntRange(0, 2).Draw(t, "verbose") == 0 {
+				c.args = append(c.args, "-verbosity=2")
+			}
+			switch {
+			case malformed:
+				want = 1
+			case !flagOK || !inList:
+				want = 4
+			}
+			what = fmt.Sprintf("config any_mr_td %s, -mr_td flag %s", listKind, flagKind)
+		}
+		c.desc = []string{what}
+		gen.Eval()
+		code, stderr, err := runTool(tool, c)
+		if err != nil {
+			gen.HarnessError(t, "cannot execute the tool: %v", err)
+		}
+		files := map[string]string{}
+		if ents, err := os.ReadDir(dir); err == nil {
+			for _, e := range ents {
+				if b, err := os.ReadFile(filepath.Join(dir, e.Name())); err == nil {
+					files[e.Name()] = hex.EncodeToString(b)
+				}
+			}
+		}
+		rp := map[string]any{"kind": "tool", "args": templArgs(c.args, dir), "desc": c.desc, "files": files, "stdin_hex": "", "allowed": []int{want}, "dir": dir}
+		detail := fmt.Sprintf("%s: exit %d, want %d; stderr: %s", what, code, want, lastLine(stderr))
+		if strings.Contains(stderr, "panic:") || strings.Contains(stderr, "goroutine ") {
+			gen.Fail(t, gen.Violation{Key: "tool-crash:" + crashSite(stderr), Oracle: "no input makes the tool crash", Detail: detail, Replay: rp})
+			return
+		}
+		if code != want {
+			gen.Fail(t, gen.Violation{Key: fmt.Sprintf("one-setting:exit-%d-instead-of-%d", code, want), Oracle: "exit 0 only if the effective policy is satisfied; a malformed flag or config exits 1; a policy mismatch exits 4", Detail: detail, Replay: rp})
+			return
+		}
+		gen.Class(fmt.Sprintf("one-setting:exit%d", want))
+		gen.NonTrivial("one-setting", what)
+		gen.Sample("one-setting", map[string]any{"setting": what, "exit": code})
 	})
 
 	// Config decoding on its own: a quote that verifies and a config whose content (when it decodes) is satisfied,
